@@ -135,8 +135,8 @@ CLAIMED = {
         "public_client_with_secret_rejected, wrong_secret_rejected, unregistered_method_rejected, exhausted_status (401 + challenge iff Basic permitted), "
         "otherwise_invalid_client (400/401 and the challenge accompanies exactly 401). Correspondence: registered method × presented credentials (Basic header shapes, "
         "form, query placement, several at once) × method lists × endpoints through the real ClientAuthentication; endpoint-level runs (token per grant, revocation, "
-        "introspection, device authorization) with before/after store snapshots; RFC 7523 client assertions with each claim mutated and replayed (oracle only).",
-   note="Trusted: Lean kernel; reference integrator client semantics; the JWT assertion method and its jti store are exercised against an independent oracle, not modelled "
+        "introspection, device authorization) with before/after store snapshots; RFC 7523 client assertions with each claim mutated and replayed; the built-in grants with the permitted-method lists they ship with (shipped_method_lists pins the regenerated table, shipped_basic_only_grants / shipped_code_grant_not_none derive the consequence).",
+   note="Trusted: Lean kernel; reference integrator client semantics; the jti store of the JWT assertion method is the documented integrator's; signature primitives are abstract in the model "
         "(failed assertion may record a jti: integrator callback invoked before the method check).",
    technique="Lean 4 proof over hand-written authentication model + differential correspondence + endpoint-level side-effect oracle",
    design="§5 C07"),
@@ -229,10 +229,10 @@ CLAIMED = {
    text="Lean 4 theorems for BOTH token kinds. RFC 9068 JWT access tokens (Props/C10Jwt.lean over Model/JwtAccessToken.lean, built on the claims model and theorems of C04): served_implies, served_token_is_valid (issuer, audience contains the resource server, unexpired, every required claim), expired_never_served, wrong_typ_never_served, undecodable_is_invalid_token, insufficient_scope_only_for_valid_token, decision_is_served_401_or_403; correspondence on every crafted token (JWS verdict decided independently by HMAC recomputation). Opaque bearer tokens: Lean 4 theorems served_iff (full iff, every header string / token table / type list / requirement list), error_kind_mapping and "
         "rejected_token_never_current over Model/Resource.lean, which mirrors ResourceProtector.validate_request, split(None,1), type lookup, "
         "BearerTokenValidator.validate_token and scope_insufficient. Correspondence: header shapes × token states × scope subsets × requirement specs "
-        "against the real core ResourceProtector; RFC 9068 JWT access tokens (34 single mutations, pairs, 11 requirement specs) are decided by an "
-        "independent transcription of RFC 9068 §4 run against the real JWTBearerTokenValidator (no Lean theorem for that half).",
-   note="Trusted: Lean kernel; ASCII lower(); theorem hypothesis AltsNonEmpty (each required alternative names a word); RFC 9068 half is "
-        "correspondence + oracle only: signature primitives and jwt.decode are exercised, not modelled.",
+        "against the real core ResourceProtector; RFC 9068 JWT access tokens (45 single mutations, pairs, 11 requirement specs) are additionally decided by an "
+        "independent transcription of RFC 9068 §4 run against the real JWTBearerTokenValidator.",
+   note="Trusted: Lean kernel; ASCII lower(); theorem hypothesis AltsNonEmpty (each required alternative names a word); in the RFC 9068 half "
+        "the signature primitives and jwt.decode's JWS layer are exercised, not modelled (the model takes the JWS verdict as input).",
    technique="Lean 4 proof (bearer decision iff) + differential correspondence + independent RFC 9068 oracle",
    design="§5 C10"),
  "C04": dict(
@@ -249,8 +249,11 @@ CLAIMED = {
  "C08": dict(
    text="Lean 4 theorems over the scope model (Model/Scope.lean): for every grant kind, token generator, supported set, client allowance, "
         "requested and original scope string, issued words ⊆ requested ∩ allowed ∩ supported (∩ original for refresh); unsupported ⇒ invalid_scope; "
-        "refresh widening ⇒ invalid_scope; embedded = response. Model tied to the code by a correspondence run of the real provider "
-        "(7 grants × 3 generators) against the compiled Lean definitions plus a direct subset oracle on the real responses.",
+        "refresh widening ⇒ invalid_scope; embedded = response. Histories (Model/ScopeHistory.lean, Props/C08Hist.lean): history_never_widens — after ANY sequence of "
+        "token and refresh requests under configurations that change between requests every token's scope is within the scope of the token it was refreshed from and of "
+        "the first token of its chain (induction, no bound on chain length); refused_changes_nothing; refresh_is_single_use; issue_within_current_config. "
+        "Model tied to the code by a correspondence run of the real provider "
+        "(7 grants × 3 generators; random refresh histories with per-step outputs and final revocation flags) against the compiled Lean definitions plus a direct subset oracle on the real responses.",
    note="Trusted: Lean kernel; python str.split modelled by Model/Text.splitWs (validated by the correspondence on whitespace variants); "
         "reference integrator client.get_allowed_scope = order-preserving filter; correspondence is differential testing bounded by the generator.",
    technique="Lean 4 proof over hand-written model + differential correspondence with the real provider",
